@@ -130,15 +130,41 @@ def _reads_temp(name):
     return "EndTagOpen" in name or "EndTagName" in name or "DoubleEscapeStart" in name or "DoubleEscapeEnd" in name
 
 
-def _canon_rest(name, rest):
+def _text_class(text):
+    """Abstract a run of plain text to what tree construction can distinguish: non-whitespace runs -> "x",
+    whitespace runs -> first character (LF kept, others as space) plus one more space if longer."""
+    out = []
+    i, n = 0, len(text)
+    while i < n:
+        ws = text[i] in "\t\n\x0c\r "
+        j = i
+        while j < n and (text[j] in "\t\n\x0c\r ") == ws:
+            j += 1
+        if ws:
+            out.append("\n" if text[i] == "\n" else " ")
+            if j - i > 1:
+                out.append(" ")
+        else:
+            out.append("x")
+        i = j
+    return "".join(out)
+
+
+_COMMENT_STATES = frozenset(["commentState", "bogusCommentState"])
+
+
+def _canon_rest(name, rest, parser_ctx=False):
     """Drop the part of the unconsumed input whose only effect is already-compared output: plain text in
     the text-emitting states (the step restarts at the first character that can change the state) and
-    skipped whitespace between attributes."""
+    skipped whitespace between attributes.  With a tree builder attached (parser_ctx) pending text has not
+    been seen by tree construction yet, so it is abstracted to its class instead of dropped."""
     stops = _TEXT_STOPS.get(name)
     if stops is not None:
         i = 0
         while i < len(rest) and rest[i] not in stops:
             i += 1
+        if parser_ctx and name not in _COMMENT_STATES:
+            return _text_class(rest[:i]) + rest[i:]
         return rest[i:]
     if name in _SPACE_SKIP:
         return rest.lstrip("\t\n\x0c ")
@@ -177,3 +203,161 @@ def impl_suspended_state(text, state="data", last=None, cdata=False):
             return snap
     except Exception as e:        # internals renamed by a refactor: never a violation
         return ("unavailable", type(e).__name__)
+
+
+# ==================================================================================================
+# parser suspension
+
+def _make_snap_tokenizer():
+    from html5lib import _tokenizer
+    from html5lib.constants import tokenTypes
+
+    class SnapTokenizer(_tokenizer.HTMLTokenizer):
+        """Same loop as HTMLTokenizer.__iter__, but records a snapshot before every step.  Used ONLY to read
+        a state key from a suspended parse; all oracle comparisons run the unmodified class."""
+
+        def __iter__(self):
+            self.tokenQueue = deque([])
+            self._snap = None
+            stream = self.stream
+            c = stream.char()         # prime: load the first chunk before the first snapshot
+            stream.unget(c)
+            while True:
+                name = self.state.__name__
+                rest = _canon_rest(name, stream.chunk[stream.chunkOffset:], True) + (stream._bufferedCharacter or "")
+                self._snap = (name, _canon_current(name, self.currentToken),
+                              getattr(self, "temporaryBuffer", None) if _reads_temp(name) else None, rest)
+                if not self.state():
+                    break
+                while self.stream.errors:
+                    yield {"type": tokenTypes["ParseError"], "data": self.stream.errors.pop(0)}
+                while self.tokenQueue:
+                    yield self.tokenQueue.popleft()
+    return SnapTokenizer
+
+
+_SNAP_CLS = None
+_TB_CACHE = {}
+
+
+def suspended_parse(text, builder="dom", container=None, scripting=False, ns=True, builder_kwargs=None):
+    """Run the real parser on `text` with no EOF.  -> (parser, tokenizer_snapshot) ; parser.tree etc. are live."""
+    global _SNAP_CLS
+    import html5lib
+    from html5lib import _tokenizer, html5parser, treebuilders
+    if _SNAP_CLS is None:
+        _SNAP_CLS = _make_snap_tokenizer()
+    k = (builder, tuple(sorted((builder_kwargs or {}).items())))
+    if k not in _TB_CACHE:
+        _TB_CACHE[k] = treebuilders.getTreeBuilder(builder, **(builder_kwargs or {}))
+    p = html5parser.HTMLParser(_TB_CACHE[k], namespaceHTMLElements=ns)
+    src = SuspendSource(text)
+    class _Shim(object):       # what html5parser sees as its `_tokenizer` module during this call
+        HTMLTokenizer = _SNAP_CLS
+    orig = html5parser._tokenizer
+    html5parser._tokenizer = _Shim
+    try:
+        try:
+            if container is None:
+                p.parse(src, scripting=scripting)
+            else:
+                p.parseFragment(src, container=container, scripting=scripting)
+        except Suspend:
+            pass
+        else:
+            raise RuntimeError("parse finished although the source never signalled EOF")
+    finally:
+        html5parser._tokenizer = orig
+    snap = getattr(p.tokenizer, "_snap", None)
+    if snap is None:
+        # suspended inside the very first read (empty text / lone CR): nothing consumed
+        name = p.tokenizer.state.__name__
+        snap = (name, None, None, text)
+    return p, snap
+
+
+def _dom_live_key(p):
+    """closed-subtree skeleton of the dom builder's tree + stacks (DESIGN 3.3)"""
+    tree = p.tree
+    stack = list(tree.openElements)
+    live = {}
+    for i, n in enumerate(stack):
+        live[id(n.element)] = ("S", i)
+    hp = tree.headPointer
+    if hp is not None and id(hp.element) not in live:
+        live[id(hp.element)] = ("H", 0)
+    # ancestors of live nodes are live as well
+    for n in list(stack) + ([hp] if hp is not None else []):
+        e = n.element.parentNode
+        while e is not None and e.nodeType == 1:
+            if id(e) not in live:
+                live[id(e)] = ("A", 0)
+            e = e.parentNode
+
+    def skel(e):
+        kids = []
+        run = None
+        for c in e.childNodes:
+            if c.nodeType == 1 and id(c) in live:
+                if run is not None:
+                    kids.append(run)
+                    run = None
+                kids.append(node(c))
+            else:
+                run = {3: "T", 1: "E", 8: "C", 10: "D"}.get(c.nodeType, "?")
+        if run is not None:
+            kids.append(run)
+        return tuple(kids)
+
+    def node(e):
+        attrs = []
+        am = e.attributes
+        for i in range(am.length):
+            a = am.item(i)
+            attrs.append((a.namespaceURI, a.name, a.value))
+        return (live[id(e)], e.namespaceURI, e.tagName, tuple(attrs), skel(e))
+
+    root = tree.dom
+    top = skel(root)
+    # stack elements that are not attached under the document (should not happen) are listed separately
+    detached = []
+    for n in stack:
+        e = n.element
+        while e.parentNode is not None:
+            e = e.parentNode
+        if e is not root and e.nodeType != 9:
+            detached.append(node(n.element) if n.element.parentNode is None else ("in-detached", n.name))
+    afe = []
+    for x in tree.activeFormattingElements:
+        if x is None:
+            afe.append("marker")
+        elif x in stack:
+            afe.append(("S", stack.index(x)))
+        else:
+            am = x.element.attributes
+            afe.append(("closed", x.namespace, x.name, tuple((am.item(i).namespaceURI, am.item(i).name, am.item(i).value)
+                                                            for i in range(am.length))))
+    fp = tree.formPointer
+    form = None if fp is None else (("S", stack.index(fp)) if fp in stack else "closed")
+    head = None if hp is None else (("S", stack.index(hp)) if hp in stack else "H")
+    return (top, tuple(detached), tuple(afe), form, head)
+
+
+def parser_key(p, snap):
+    """canonical state of a suspended parser (dom builder).  ("unavailable", ...) if internals moved."""
+    try:
+        phases = p.phases
+        itt = phases["inTableText"]
+        body = phases["inBody"]
+        misc = (
+            p.phase.__class__.__name__,
+            getattr(p, "originalPhase", None).__class__.__name__ if p.phase.__class__.__name__ == "TextPhase" else None,
+            (itt.originalPhase.__class__.__name__, _text_class("".join(t["data"] for t in itt.characterTokens)))
+            if p.phase is itt else None,
+            body.processSpaceCharacters.__name__,
+            p.framesetOK, p.compatMode, bool(p.innerHTML) and p.innerHTML,
+            getattr(p.tree, "insertFromTable", None),
+        )
+        return (misc, _dom_live_key(p), snap)
+    except Exception as e:
+        return ("unavailable", type(e).__name__, str(e)[:80])
